@@ -139,6 +139,9 @@ def check_c03(b):
         utc = series(up.utc_hourly_usage_journey_starts)
         tot_utc = sum(utc.values())
         D = dur_h(up.usage_journey.duration)
+        # the journey lasts as long as its steps one after the other, a step visited twice counting twice
+        D_steps = sum(dur_h(st.user_time_spent) for st in up.usage_journey.uj_steps)
+        if not close(D, D_steps, 1e-12, 1e-12): fails.append(f"journey-duration=sum-of-steps-with-repeats:{up.usage_journey.name}")
         par = series(up.nb_usage_journeys_in_parallel)
         if not close(sum(par.values()), D * tot_utc, 1e-9, 1e-9): fails.append(f"journeys-in-parallel-total:{up.name}")
         P = sum(phys(d.power) for d in up.devices)
